@@ -672,7 +672,7 @@ def run(ctx):
 
 
 MANIFEST = dict(
-   text='Decides structural necessary conditions of the container models on all paths: (1) check-then-use null contradictions in every property-list function (a pointer the function itself null-tests, re-assigned from a list tail and dereferenced untested); (2) the four open-addressing tables (Map<T>, Set<T>, TagMap, StyleMap; every member instantiated explicitly) are model-checked by interpreting their methods (sa/tablemodel.py): breadth-first over every state reachable from the zeroed table under insert/delete of a small key universe with chosen hashes (colliding clusters that wrap around the array end, the resize at the fifth insertion), two values per key on a smaller universe, plus a fill-and-drain history through several resizes; in every state count, absence of duplicates, values, the linear-probing reachability invariant, get/has/next/copy_from/clear agree with a reference dictionary, and no assertion fails, no slot outside the array is touched, no hash % 0, no non-terminating probe, no released string stays in a slot; statement forms (early returns, flags, helpers, pointer or index walks) do not enter; payload obligations (old slot emptied, every item field written); (3) Array<T> bookkeeping; (4) property-list copies append at the tail and deep-copy, remove_property leaves the function right after the first removal unless all occurrences were requested, and set_gds_property / get_or_add_property either update an existing entry or link a new one, never both (CFG reachability). (5) heap sort (introsort fallback): child/parent index formulas evaluated for small indices, every comparison of a child index with the inclusive bound `end` is `<=`, the build phase passes count-1, after the maximum is swapped to items[end] the sift range excludes that slot, and the elements saved by insertion_sort, sift_down and partition are copies, not references into the array being rearranged. Equivalence of the tables with an abstract map is decided for the explored universes only (5-6 keys, capacities 8-64), not for every history; nor that sort orders every input (value-dependent; only the index discipline of the heap part is decided).',
+   text='Decides structural necessary conditions of the container models on all paths: (1) check-then-use null contradictions in every property-list function (a pointer the function itself null-tests, re-assigned from a list tail and dereferenced untested); (2) the four open-addressing tables (Map<T>, Set<T>, TagMap, StyleMap; every member instantiated explicitly) are model-checked by interpreting their methods (sa/tablemodel.py): breadth-first over every state reachable from the zeroed table under insert/delete of a small key universe with chosen hashes (colliding clusters that wrap around the array end, the resize at the fifth insertion), two values per key on a smaller universe, plus a fill-and-drain history through several resizes; in every state count, absence of duplicates, values, the linear-probing reachability invariant, get/has/next/copy_from/clear agree with a reference dictionary, and no assertion fails, no slot outside the array is touched, no hash % 0, no non-terminating probe, no released string stays in a slot; statement forms (early returns, flags, helpers, pointer or index walks) do not enter; payload obligations (old slot emptied, every item field written); (3) Array<T> bookkeeping; (4) property-list copies append at the tail and deep-copy, remove_property leaves the function right after the first removal unless all occurrences were requested, and set_gds_property / get_or_add_property either update an existing entry or link a new one, never both (CFG reachability). (5) heap sort (introsort fallback): child/parent index formulas evaluated for small indices, every comparison of a child index with the inclusive bound `end` is `<=`, the build phase passes count-1, after the maximum is swapped to items[end] the sift range excludes that slot, and the elements saved by insertion_sort, sift_down and partition are copies, not references into the array being rearranged. Equivalence of the tables with an abstract map is decided for the explored universes only (5-6 keys, capacities 8-64), not for every history; that sort orders every input is decided for the enumerated arrays (all weak orderings up to 5-6 elements) only. As built: gdstk::sort with heap_sort, insertion_sort, intro_sort and their helpers is decided by interpretation (R-MODEL.sort): every array over {0,1,2} of up to 5 (6) elements and adversarial arrays of 17-40 elements, with < and >, must come out as the sorted permutation with no access outside the array - exhaustive over the weak orderings of those sizes, samples beyond; this replaces the index-discipline rules of the heap part. remove_property / get_property are interpreted on every list of up to four entries over two names (R-MODEL.list).',
    note='Trusted: clang 14 front end, gx, sa rules, the interpreter sa/minieval.py and the table harness sa/tablemodel.py (allocation, string and hash primitives are answered by the harness); hash() not analysed.',
-   technique='explicit-state model checking of the hash tables by abstract interpretation of their source over small universes (no compiled code is run) + per-method index obligations with affine loop summaries (heap sort) + nullness dataflow (check-then-use contradiction) + CFG reachability (update xor insert)',
+   technique='explicit-state model checking of the hash tables by abstract interpretation of their source over small universes (no compiled code is run) + per-method index obligations with affine loop summaries (heap sort) + nullness dataflow (check-then-use contradiction) + CFG reachability (update xor insert) + interpretation of gdstk::sort on all small arrays and of the property-list functions on all short lists (sa/minieval)',
    design='§4 C20')
